@@ -483,3 +483,48 @@ def test_awaited_call(cx, t):
         if vs and all(isinstance(v, ast.Await) and isinstance(v.value, ast.Call) for v in vs) and len({ast.unparse(v.value.func) for v in vs}) == 1:
             return vs[0].value
     return None
+
+
+def alias_text(cx, expr):
+    """text of expr with locals that are plain aliases (bound once to a name / attribute chain) replaced by what they alias:
+    `fields = ret._encoded_fields; fields[i]` reads as `ret._encoded_fields[i]`"""
+    import copy
+    env = {}
+    for k, v in unique_defs(cx).items():
+        b = v
+        while isinstance(b, ast.Attribute):
+            b = b.value
+        if isinstance(b, ast.Name) and isinstance(v, (ast.Name, ast.Attribute)):
+            env[k] = v
+    return ast.unparse(_Inline(env, 0).visit(copy.deepcopy(expr)))
+
+
+def bulk_appends(cx):
+    """[(cfg node, receiver expr, iterable expr)] for `recv.extend(X)` and its canonical spelling `for e in X: recv.append(e)`"""
+    out = []
+    for (n, c) in calls_in_ctx(cx, attr='extend'):
+        if len(c.args) == 1:
+            out.append((n, c.func.value, c.args[0]))
+    for n in cx.cfg.nodes:
+        if n.kind == 'for' and isinstance(n.ast.target, ast.Name) and len(n.ast.body) == 1 and isinstance(n.ast.body[0], ast.Expr) \
+                and isinstance(n.ast.body[0].value, ast.Call) and callee_attr(n.ast.body[0].value) == 'append' and not n.ast.orelse:
+            c = n.ast.body[0].value
+            if len(c.args) == 1 and isinstance(c.args[0], ast.Name) and c.args[0].id == n.ast.target.id:
+                out.append((n, c.func.value, n.ast.iter))
+    return out
+
+
+FLIPOP = {ast.Lt: ast.Gt, ast.LtE: ast.GtE, ast.Gt: ast.Lt, ast.GtE: ast.LtE, ast.Eq: ast.Eq, ast.NotEq: ast.NotEq}
+
+
+def orient(cmp, is_left):
+    """a single-operator comparison rewritten so that the side satisfying `is_left` is on the left: Compare node or None.
+    Rules state their pattern in one orientation; the source may use either."""
+    if not (isinstance(cmp, ast.Compare) and len(cmp.ops) == 1):
+        return None
+    l, r = cmp.left, cmp.comparators[0]
+    if is_left(l):
+        return cmp
+    if is_left(r) and type(cmp.ops[0]) in FLIPOP:
+        return ast.copy_location(ast.Compare(left=r, ops=[FLIPOP[type(cmp.ops[0])]()], comparators=[l]), cmp)
+    return None
